@@ -1,6 +1,7 @@
 import Sonic.Props.C05
 import Sonic.Props.C09
 import Sonic.Props.C14
+import Sonic.Props.C01
 
 /-!
 # C15 — All supported x86 build configurations compute identical results
@@ -57,5 +58,28 @@ theorem C15_memcmp_prod_eq_san (mem : Memcmp.Mem) (a b s : Nat)
     Memcmp.InlinedMemcmpEq true mem a b s = Memcmp.InlinedMemcmpEq false mem a b s ∧
     Memcmp.InlinedMemcmp true mem a b s = Memcmp.InlinedMemcmp false mem a b s :=
   Sonic.Props.C14.C14_san_agree mem a b s hA hB
+
+/-- **The full parser computes the same result in every build configuration** (vector width 16 = SSE kernels, 32 = AVX2 kernels;
+    runtime dispatch selects one of the two): accept/reject, the value, the success offset and the tree are identical, and so are the
+    error code and offset - except inside a malformed string literal, where each width still reports a string-failure code at an
+    offset inside that literal (the exception the property itself allows; `C01_width_differs` shows it is real).  Any padding bytes,
+    any stale node stack, any previous document.  Corollary of `C01_width_irrelevant`. -/
+theorem C15_parse_width_independent (pad₁ pad₂ bs : List Nat)
+    (raw₁ raw₂ : List (Option Sonic.Model.Parse.Node)) (d₁ d₂ : Sonic.Model.Parse.Doc)
+    (hbs : ∀ x ∈ bs, x < 256) (hpad₁ : ∀ x ∈ pad₁, x < 256) (hlen₁ : pad₁.length = 61)
+    (hpad₂ : ∀ x ∈ pad₂, x < 256) (hlen₂ : pad₂.length = 61)
+    (hraw₁ : raw₁.length = Sonic.Model.Parse.setUpCap bs.length) (hraw₂ : raw₂.length = Sonic.Model.Parse.setUpCap bs.length)
+    (hL : bs.length + 4 < 2 ^ 32) (hexp : Sonic.Proofs.Parse.ExpSmall bs) :
+    ∃ r₁ r₂, Sonic.Model.Parse.parseDoc 16 pad₁ raw₁ d₁ bs = .ok r₁ ∧ Sonic.Model.Parse.parseDoc 32 pad₂ raw₂ d₂ bs = .ok r₂ ∧
+      Sonic.Props.C01.observe r₁ = Sonic.Props.C01.observe r₂ ∧ r₁.doc.root = r₂.doc.root ∧
+      ((r₁.err = r₂.err ∧ r₁.off = r₂.off) ∨
+       (∃ q, Sonic.Props.C01.MalformedLiteralAt bs q ∧ q < r₁.off ∧ r₁.off ≤ bs.length ∧ q < r₂.off ∧ r₂.off ≤ bs.length ∧
+          Sonic.Props.C01.StringFailureCode r₁.err ∧ Sonic.Props.C01.StringFailureCode r₂.err)) := by
+  obtain ⟨r₁, r₂, h1, h2, h3, h4, h5⟩ := Sonic.Props.C01.C01_width_irrelevant 16 32 (by decide) (by decide) (by decide) (by decide)
+    pad₁ pad₂ bs raw₁ raw₂ d₁ d₂ hbs hpad₁ hlen₁ hpad₂ hlen₂ hraw₁ hraw₂ hL hexp
+  refine ⟨r₁, r₂, h1, h2, h3, h4, ?_⟩
+  rcases h5 with h | ⟨_, q, hq⟩
+  · exact Or.inl h
+  · exact Or.inr ⟨q, hq⟩
 
 end Sonic.Props.C15
